@@ -10,9 +10,3 @@ Theorem go_defaults_eq :
   go_DefaultParagraphSeparator = default_parasep /\ go_DefaultTableCharSet = default_charset.
 Proof. repeat split; reflexivity. Qed.
 
-(* the literals the model of InsertDefinitionsTable and MakeTable writes out:
-   "- " before a definition, two spaces before a term (termLeftTabWidth), two spaces between
-   the columns (minBetween), and the inter-column padding of borderless tables *)
-Theorem go_layout_consts_eq :
-  go_definitionStart = [HYPHEN; SP] /\ go_termLeftTabWidth = 2 /\ go_minBetween = 2 /\ go_minNonBorderInterColumnPadding = 2.
-Proof. repeat split; reflexivity. Qed.
